@@ -193,6 +193,13 @@ func c16Canon(v reflect.Value, sb *strings.Builder) {
 		}
 		sb.WriteByte('&')
 		c16Canon(v.Elem(), sb)
+	case reflect.Interface:
+		if v.IsNil() {
+			sb.WriteString("nil")
+			return
+		}
+		sb.WriteString("I(" + v.Elem().Type().String() + ")")
+		c16Canon(v.Elem(), sb)
 	case reflect.Struct:
 		sb.WriteByte('{')
 		for i := 0; i < v.NumField(); i++ {
@@ -258,7 +265,21 @@ func c16Clone(v reflect.Value) reflect.Value {
 			p.Elem().Set(c16Clone(v.Elem()))
 			out.Set(p)
 		}
+	case reflect.Interface:
+		if !v.IsNil() {
+			out.Set(c16Clone(v.Elem()))
+		}
 	case reflect.Struct:
+		for i := 0; i < v.NumField(); i++ {
+			if v.Type().Field(i).PkgPath != "" {
+				// foreign struct with unexported fields (*big.Float behind an `any`): no deep copy by
+				// reflection; the canonical text taken at hand-over still covers its content
+				if v.CanInterface() {
+					out.Set(v)
+				}
+				return out
+			}
+		}
 		for i := 0; i < v.NumField(); i++ {
 			out.Field(i).Set(c16Clone(v.Field(i)))
 		}
@@ -548,12 +569,13 @@ func c16Trunc(s string) string {
 	return s
 }
 
-const c16Rule = "catalogue struct types x random rows x random writer configuration (page version, codec, page/row-group/dictionary limits) x histories with poison-on-release active: GenericReader.Read/Read[T] batches deep-copied at hand-over and re-compared after every later Read, SeekToRow, ReadRows, Close and heavy pool churn by unrelated readers/writers of all codecs; ReadRows results compared just before the next call on the same reader, their clones forever; page values while the page is held (file pages and AsyncPages), clones after Release; rows and slices passed to Write/WriteRows/Buffer (with sorting) compared before/after; non-trivial = the type has a byte-array column holding a non-empty value and at least two hand-overs were held across later calls; plus row readers over converted and merged row groups (permuted schema), caller []Row batches kept alive across Reset / later writes / sorting-run flushes, and hand-written map-typed struct fields read into reused destination slices"
+const c16Rule = "catalogue struct types x random rows x random writer configuration (page version, codec, page/row-group/dictionary limits) x histories with poison-on-release active: GenericReader.Read/Read[T] batches deep-copied at hand-over and re-compared after every later Read, SeekToRow, ReadRows, Close and heavy pool churn by unrelated readers/writers of all codecs; ReadRows results compared just before the next call on the same reader, their clones forever; page values while the page is held (file pages and AsyncPages), clones after Release; rows and slices passed to Write/WriteRows/Buffer (with sorting) compared before/after; non-trivial = the type has a byte-array column holding a non-empty value and at least two hand-overs were held across later calls; plus row readers over converted and merged row groups (permuted schema), caller []Row batches kept alive across Reset / later writes / sorting-run flushes, and hand-written map-typed struct fields read into reused destination slices; plus the matrix leaf type of the reader's schema (BYTE_ARRAY, STRING, JSON, BSON, ENUM, DECIMAL, FIXED_LEN_BYTE_ARRAY(1/12/16/33), UUID, INTERVAL) x Go kind of the destination field ([]byte, string, [N]byte, any, pointers to and slices of them; required, optional, repeated) read with the schema handed over explicitly (GenericReader, Reader.Read(&row), Schema.Reconstruct) and with the derived schema (converted file) into reused destinations kept by shallow copy"
 
 func c16HistoriesInProcess(ctx *core.Ctx) {
 	ctx.SetRule(c16Rule)
 	c16PoisonSelfTest(ctx)
 	c16MapHistories(ctx)
+	c16CrossHistories(ctx)
 	ncases := ctx.Scale(5, 20)
 	var wg sync.WaitGroup
 	sem := make(chan struct{}, 16)
